@@ -527,9 +527,10 @@ impl Sut for LWWReg<u64, u64> {
         // that stale and fresh writes interleave
         let time = 1 + a.below(6);
         let marker = time * 16 + actor;
-        // the value is a function of the marker: correct use never reuses a marker
-        // with a different value
-        Some(LWWReg { val: marker * 3 + 1, marker })
+        // the value is a function of the marker (correct use never reuses a marker with a
+        // different value) drawn from a small range, so that the same value is written
+        // under several markers
+        Some(LWWReg { val: (marker * 7 + marker / 16) % 3, marker })
     }
     fn raw(a: &mut Args) -> Self::Op {
         LWWReg { val: a.below(3), marker: a.below(4) }
